@@ -68,6 +68,10 @@ func checkSpec(ctx *Ctx, id string) {
 	if !ctx.Quick {
 		n = 420
 	}
+	if len(sp.Ecos) == 1 {
+		// one ecosystem to cover: a pool that holds every marker family of every seed
+		n = 2*n + 100
+	}
 	dist := map[string]any{}
 	for _, name := range sp.Ecos {
 		e := ecoByName(name)
